@@ -12,6 +12,7 @@ concatenation is the stream: no bound on sizes, empty chunks allowed, boundaries
 Proof: Lemmas/CodecReader{Basic,Decode,Frame,Ctx,Stream,Loop}.lean (invariant over the chunk list).
 -/
 import AsyncFix.Lemmas.CodecReaderLoop
+import AsyncFix.Lemmas.CodecReaderTrunc
 import AsyncFix.Generated.Proto
 namespace AsyncFix.Props.C03
 open AsyncFix.Model.Codec
@@ -81,6 +82,53 @@ theorem reader_no_raise_no_stall (bs : Bytes) (tbl : Tbl) (frames : List Bytes) 
   obtain ⟨_, _, _, _, _, _, hrl, _⟩ := readLoop_good hb frames g0 gs' X R [] hgood hs
   rw [hrl]
   exact ⟨rfl, rfl⟩
+
+/-- A stream that is cut off (the connection ends – EOF, watchdog, application disconnect – while `R` has not
+arrived): whatever the reads were, exactly the first `j` frames are handed over, where `j` is determined by the
+length of `R` alone: the delivered frames had arrived completely (`R` is no longer than the stream from the junk
+block behind frame `j` on) and the end of the next frame had not (`R` is longer than what follows that frame). -/
+theorem reader_truncated_stream (bs : Bytes) (tbl : Tbl) (frames : List Bytes) (gs : List Bytes)
+    (chunks : List Bytes) (R : Bytes)
+    (hb : okBegin bs = true)
+    (hv : ∀ f ∈ frames, WFFrame bs f ∧ ∃ m, decode bs tbl f = .msg m f.length f)
+    (hg : ∀ g ∈ gs, NoMarker g) (hlen : gs.length = frames.length + 1)
+    (hc : chunks.flatten ++ R = interleave gs frames) :
+    ∃ j, j ≤ frames.length ∧
+      (feedAll bs tbl [] chunks []).2 = (frames.take j).map (fun f => (msgOf bs tbl f, f)) ∧
+      R.length ≤ (interleave (gs.drop j) (frames.drop j)).length ∧
+      (j < frames.length → (interleave (gs.drop (j + 1)) (frames.drop (j + 1))).length < R.length) := by
+  obtain ⟨g0, gs', rfl, hgood⟩ := good_of hv hg hlen
+  obtain ⟨done, left, g', gj, gsl, hfr, hdel, hgd, hbr, hdj, hsj, hsh⟩ :=
+    feedAll_good_trunc hb R chunks [] [] frames g0 gs' hgood (by simpa using hc) (short_nil g0 hb hv)
+  have htake : frames.take done.length = done := by rw [hfr, List.take_left]
+  have hdropf : frames.drop done.length = left := by rw [hfr, List.drop_left]
+  refine ⟨done.length, by rw [hfr, List.length_append]; omega, ?_, ?_, ?_⟩
+  · rw [htake]; simpa using hdel
+  · rw [hdj, hdropf, interleave_head gj]
+    have h1 := congrArg List.length hbr
+    rw [interleave_head g'] at h1
+    have h2 := hsj.length_le
+    simp only [List.length_append] at h1 ⊢
+    omega
+  · intro hj
+    rw [hfr, List.length_append] at hj
+    match left, hgd, hbr, hsh, hdropf, hj with
+    | f' :: rest, hgd, hbr, hsh, hdropf, _ =>
+      obtain ⟨g1, gsl', rfl⟩ : ∃ g1 gsl', gsl = g1 :: gsl' := by
+        have := hgd.hlen
+        cases gsl with
+        | nil => simp at this
+        | cons a b => exact ⟨a, b, rfl⟩
+      have hd1 : (g0 :: gs').drop (done.length + 1) = g1 :: gsl' := by
+        rw [← List.drop_drop, hdj]; rfl
+      have hd2 : frames.drop (done.length + 1) = rest := by
+        rw [← List.drop_drop, hdropf]; rfl
+      rw [hd1, hd2]
+      have h1 := congrArg List.length hbr
+      simp only [interleave, List.length_append] at h1
+      have h3 : (feedAll bs tbl [] chunks []).1.length < g'.length + f'.length := hsh
+      omega
+    | [], _, _, _, _, hj => simp at hj
 
 /-- The side condition on the BeginString holds for the protocol of /repo (generated). -/
 def protoBegin : Bytes := AsyncFix.Generated.Proto.beginString.toUTF8.toList.map (·.toNat)
